@@ -82,3 +82,17 @@ Theorem C18_shared_capture_doubles_label :
   nth 3 (sh_run true (sh_init "") capture_trace) None <> nth 3 (sh_spec [] capture_trace) None.
 Proof. exact shared_capture_doubles_label. Qed.
 Print Assumptions C18_shared_capture_doubles_label.
+
+(* thresholds anywhere in Z (the Go type is a 64-bit int): above LevelError nothing is emitted, at or
+   below LevelTrace everything is -- in particular for math.MaxInt / math.MinInt and for values outside
+   the 32-bit range, which must not wrap *)
+Theorem C18_threshold_above_error_silent : forall thr l msg args,
+  go_LevelError < thr -> simple_emit thr l msg args = None /\ slog_emit thr l msg args = None.
+Proof. exact threshold_above_error_silent. Qed.
+Print Assumptions C18_threshold_above_error_silent.
+
+Theorem C18_threshold_at_most_trace_emits_all : forall thr l msg args,
+  thr <= go_LevelTrace ->
+  (exists line, simple_emit thr l msg args = Some line) /\ (exists r, slog_emit thr l msg args = Some r).
+Proof. exact threshold_at_most_trace_emits_all. Qed.
+Print Assumptions C18_threshold_at_most_trace_emits_all.
